@@ -10,6 +10,8 @@ import (
 	"fmt"
 	"go/ast"
 	"go/token"
+	"os"
+	"path/filepath"
 	"regexp"
 	"sort"
 	"strings"
@@ -17,6 +19,7 @@ import (
 
 func init() {
 	customKinds["panic_sites"] = panicSites
+	customKinds["file_text_has"] = fileTextHas
 }
 
 var wsRe = regexp.MustCompile(`\s+`)
@@ -139,9 +142,14 @@ func panicSites(it Item) (string, error) {
 						}
 					}
 				case *ast.CallExpr:
-					if full || scanAll["panic"] {
+					if full || scanAll["panic"] || scanAll["intn"] {
 						ft := normText(p, x.Fun)
-						if ft == "panic" || ft == "os.Exit" || strings.HasPrefix(ft, "log.Fatal") || strings.HasSuffix(ft, ".Fatalf") || strings.HasSuffix(ft, ".Fatal") {
+						if (ft == "rand.Intn" || ft == "rand.Int63n" || ft == "rand.Int31n") && (full || scanAll["intn"]) && len(x.Args) == 1 {
+							if bl, ok := x.Args[0].(*ast.BasicLit); !ok || bl.Kind != token.INT || bl.Value == "0" {
+								add(name, "intn", normText(p, x))
+							}
+						}
+						if (full || scanAll["panic"]) && (ft == "panic" || ft == "os.Exit" || strings.HasPrefix(ft, "log.Fatal") || strings.HasSuffix(ft, ".Fatalf") || strings.HasSuffix(ft, ".Fatal")) {
 							add(name, "exit", ft)
 						}
 					}
@@ -170,4 +178,22 @@ func panicSites(it Item) (string, error) {
 		rows = append(rows, fmt.Sprintf("(%s, %s, %s)", coqStr(s.fn), coqStr(s.kind), coqStr(s.text)))
 	}
 	return fmt.Sprintf("Definition %s : list (string * string * string) :=\n  [%s].", it.Coq, strings.Join(rows, ";\n   ")), nil
+}
+
+// fileTextHas: does the whitespace-normalised text of a (non-Go) file of the repository match Regex?
+// Pkg = directory, Name = file name. Used for the embedded YAML metadata.
+func fileTextHas(it Item) (string, error) {
+	b, err := os.ReadFile(filepath.Join(repo, it.Pkg, it.Name))
+	if err != nil {
+		return "", err
+	}
+	re, err := regexp.Compile(it.Regex)
+	if err != nil {
+		return "", err
+	}
+	v := "false"
+	if re.MatchString(wsRe.ReplaceAllString(string(b), " ")) {
+		v = "true"
+	}
+	return fmt.Sprintf("Definition %s : bool := %s.", it.Coq, v), nil
 }
